@@ -1,6 +1,6 @@
 (* C15 -- property theorems only; each closed by `exact` and followed by Print Assumptions. *)
 Require Import SF.Prelude SF.Value SF.Dtype SF.Reduce Gen.Gen_c15_table.
-Require Import Proofs.ReduceFold Proofs.ReduceRefine Proofs.ReduceSpec.
+Require Import Proofs.ReduceFold Proofs.ReduceRefine Proofs.ReduceMain Proofs.ReduceSpec Proofs.ReduceArg.
 From Coq Require Import QArith.
 Local Open Scope Z_scope.
 
@@ -131,3 +131,26 @@ Theorem C15_cum_refinement : forall isprod axis skipna r bs, wf_frame r bs = tru
   M_cumframe isprod axis skipna r bs = S_cumframe isprod axis skipna r (frame_cells bs).
 Proof. exact M_cumframe_refines. Qed.
 Print Assumptions C15_cum_refinement.
+
+(* What "the position of the minimum / maximum" is: the scan returns position k with value v where v is present
+   at k, no present value beats v, and every present value before k is strictly worse (first position on ties);
+   it returns nothing exactly when the line has no present cell. *)
+Theorem C15_argminmax_first_extreme : forall ismin xs,
+  match arg_go (arg_better ismin) 0 None xs with
+  | Some (k, v) =>
+      0 <= k /\ nth_error xs (Z.to_nat k) = Some (Some v) /\
+      (forall j p, nth_error xs j = Some (Some p) -> (if ismin then Qle_bool v p else Qle_bool p v) = true) /\
+      (forall j p, (j < Z.to_nat k)%nat -> nth_error xs j = Some (Some p) ->
+                   (if ismin then Qle_bool p v else Qle_bool v p) = false)
+  | None => forall j p, nth_error xs j <> Some (Some p)
+  end.
+Proof. exact arg_go_first_extreme. Qed.
+Print Assumptions C15_argminmax_first_extreme.
+
+(* loc_min / loc_max: the label is the label at the position found. *)
+Theorem C15_loc_is_label_at_iloc : forall ismin axis skipna r cols index columns os,
+  S_argframe ismin axis skipna r cols = Ok os ->
+  S_locframe ismin axis skipna r cols index columns =
+  res_all (map (loc_of (if axis =? 0 then index else columns)) os).
+Proof. exact S_loc_is_label_at_iloc. Qed.
+Print Assumptions C15_loc_is_label_at_iloc.
